@@ -390,7 +390,8 @@ PROBES = {
             'adopted_register', 'container_used', 'fault_F5_template_flip', 'fault_F6_container_mutated',
             'fault_F1_injected', 'fault_F3_fired', 'fault_F4_fired', 'abandoned_dest',
             'chained_setitem_root_checked', 'chained_setitem_through_0d_view', 'clip_bound_from_container',
-            'arith_operand_from_container', 'reentrant_write_repeated_without_interleaving'],
+            'arith_operand_from_container', 'reentrant_write_repeated_without_interleaving',
+            'getitem_advanced_index', 'setitem_advanced_index', 'scalar_indexed_store_region_uniform', 'exported_snapshot'],
     'C02': ['sat_store_checked', 'sat_store_beyond_2_64', 'view_created', 'register_write',
             'fault_F3_fired', 'fault_F4_fired'],
     'C04': ['c04_write_judged', 'c04_callback_set_judged', 'c04_write_beyond_input_domain_judged', 'c04_arith_value_not_exact_not_judged', 'failed_write_dest_kept', 'probe_ovf_and_udf_in_one_write',
